@@ -218,12 +218,12 @@ def evaluate__mod_operator(self: XPathToken, context: ta.ContextType = None) \
         raise self.error('XPTY0004', '2nd operand is an empty sequence')
     elif op2 == 0 and (isinstance(op1, float) or isinstance(op2, float)):
         return math.nan
-    elif math.isinf(op2) and not math.isinf(op1) and op1 != 0:
-        return op1 if self.parser.version != '1.0' else math.nan
 
     try:
         if isinstance(op1, int) and isinstance(op2, int):
             return abs(op1) % abs(op2) if op1 >= 0 else -(abs(op1) % abs(op2))
+        elif math.isinf(op2) and not math.isinf(op1) and op1 != 0:
+            return op1 if self.parser.version != '1.0' else math.nan
         result = op1 % op2  # type: ignore[operator]
         if isinstance(result, float) and not math.isnan(result):
             # Python's float modulo is floored, XPath requires the truncating remainder
@@ -233,6 +233,8 @@ def evaluate__mod_operator(self: XPathToken, context: ta.ContextType = None) \
         raise self.error('FORG0006', err) from None
     except (ZeroDivisionError, decimal.InvalidOperation):
         raise self.error('FOAR0001') from None
+    except OverflowError:
+        raise self.error('FOAR0002') from None
 
 
 # Resolve the intrinsic ambiguity of some infix operators
